@@ -1,5 +1,5 @@
 (* C11 model runner.  One case per line:
-   <id> <cfg6bits> <preserve01> <wd as opened> <physical wd> <cwd> <nprep> {d <path> | f <path> <tag> | l <path> <target> | h <path> <earlier file>}* <npush>
+   <id> <cfg7bits> <preserve01> <wd as opened> <physical wd> <cwd> <nprep> {d <path> | f <path> <tag> | l <path> <target> | h <path> <earlier file>}* <npush>
         { B <title> <tag> | M <nlayers> {<title> <tag>}* | (U | F <how>) <title> <nent> { (r <name> <tag> <mode> | d <name> <mode> | h <name> <tgt> | s <name> <tgt> | o <name>) <time> }* }*
    strings are hex ("-" = empty); paths are absolute slash-separated strings; modes decimal.
    Pre-populated directories have mode 0755, files 0644.
@@ -18,7 +18,7 @@ let run_case id toks =
   let next () = match !toks with x :: r -> toks := r; x | [] -> failwith "short line" in
   let bits = next () in
   let bit i = bits.[i] = '1' in
-  let g = { fixH = bit 0; fixA = bit 1; fixR = bit 2; fixN = bit 3; fixW = bit 4; fixT = bit 5 } in
+  let g = { fixH = bit 0; fixA = bit 1; fixR = bit 2; fixN = bit 3; fixW = bit 4; fixT = bit 5; fixK = bit 6 } in
   let pres = (next () = "1") in
   let wd = path_of_string (string_of_hex (next ())) in
   let physwd = path_of_string (string_of_hex (next ())) in
